@@ -431,6 +431,81 @@ theorem canSwap_same_shape (a b : IsingH) (ha : a.WF) (hb : b.WF) (h : canSwapIs
     a.edges.length = b.edges.length ∧ a.nvars = b.nvars :=
   ⟨(swappable_of_canSwap ha hb h).len.symm, (swappable_of_canSwap ha hb h).nvars.symm⟩
 
+
+/-! ## 10. Known finding F28: floating-point overflow of the temperature factor (witness pair) -/
+
+namespace OverflowWitness
+/-- the hot replica of the witness: beta = 5/2, the literal 26-operator string of the harness mode
+`overflow-witness` -/
+def hotSlots : Slots :=
+   [none,
+    none,
+    none,
+    some { vars := [2, 3], bond := 2, ins := [false, true], outs := [false, true], tagDiag := true, const := false },
+    none,
+    some { vars := [3], bond := 6, ins := [true], outs := [false], tagDiag := false, const := true },
+    some { vars := [3], bond := 6, ins := [false], outs := [false], tagDiag := true, const := true },
+    some { vars := [2], bond := 5, ins := [false], outs := [true], tagDiag := false, const := true },
+    some { vars := [1, 2], bond := 1, ins := [false, true], outs := [false, true], tagDiag := true, const := false },
+    some { vars := [0], bond := 3, ins := [true], outs := [true], tagDiag := true, const := true },
+    some { vars := [2], bond := 5, ins := [true], outs := [true], tagDiag := true, const := true },
+    some { vars := [0], bond := 3, ins := [true], outs := [true], tagDiag := true, const := true },
+    some { vars := [0], bond := 7, ins := [true], outs := [true], tagDiag := true, const := false },
+    none,
+    some { vars := [0], bond := 7, ins := [true], outs := [true], tagDiag := true, const := false },
+    some { vars := [2], bond := 5, ins := [true], outs := [true], tagDiag := true, const := true },
+    some { vars := [0], bond := 7, ins := [true], outs := [true], tagDiag := true, const := false },
+    none,
+    some { vars := [1], bond := 4, ins := [false], outs := [false], tagDiag := true, const := true },
+    none,
+    none,
+    some { vars := [1, 2], bond := 1, ins := [false, true], outs := [false, true], tagDiag := true, const := false },
+    none,
+    some { vars := [0], bond := 3, ins := [true], outs := [true], tagDiag := true, const := true },
+    none,
+    none,
+    some { vars := [2, 3], bond := 2, ins := [true, false], outs := [true, false], tagDiag := true, const := false },
+    some { vars := [3], bond := 6, ins := [false], outs := [true], tagDiag := false, const := true },
+    some { vars := [2], bond := 9, ins := [true], outs := [true], tagDiag := true, const := false },
+    some { vars := [1], bond := 4, ins := [false], outs := [false], tagDiag := true, const := true },
+    some { vars := [1, 2], bond := 1, ins := [false, true], outs := [false, true], tagDiag := true, const := false },
+    some { vars := [2], bond := 9, ins := [true], outs := [true], tagDiag := true, const := false },
+    none,
+    some { vars := [0], bond := 3, ins := [true], outs := [false], tagDiag := false, const := true },
+    some { vars := [1], bond := 4, ins := [false], outs := [false], tagDiag := true, const := true },
+    some { vars := [0], bond := 3, ins := [false], outs := [true], tagDiag := false, const := true },
+    some { vars := [1, 2], bond := 1, ins := [false, true], outs := [false, true], tagDiag := true, const := false },
+    some { vars := [2], bond := 5, ins := [true], outs := [false], tagDiag := false, const := true },
+    none,
+    none]
+def Hhot : IsingH := { edges := [([0, 1], 3 / 2), ([1, 2], 1), ([2, 3], 3 / 4)], gamma := 5 / 4, h := 3 / 4, nvars := 4 }
+/-- the same Hamiltonian in another energy unit: every coupling times 2^-45 -/
+def Hcold : IsingH :=
+  { edges := [([0, 1], 3 / 2 / 2 ^ 45), ([1, 2], 1 / 2 ^ 45), ([2, 3], 3 / 4 / 2 ^ 45)],
+    gamma := 5 / 4 / 2 ^ 45, h := 3 / 4 / 2 ^ 45, nvars := 4 }
+def hot : Replica IsingH :=
+  { ham := Hhot, beta := 5 / 2, offset := 0, rng := 0, bw := 0, cutoff := 40,
+    cfg := { state := [true, false, false, true], slots := hotSlots } }
+/-- a freshly added replica: no operators, beta = 2^51 (beta * J comparable with the hot replica's) -/
+def cold : Replica IsingH :=
+  { ham := Hcold, beta := 2 ^ 51, offset := 0, rng := 0, bw := 0, cutoff := 40,
+    cfg := { state := [false, true, false, true], slots := List.replicate 40 none } }
+end OverflowWitness
+
+/-- **Known finding F28 (model side).** For the witness pair — a freshly added replica at beta = 2^51 whose
+Hamiltonian is the hot replica's in another energy unit (couplings x 2^-45), next to the hot replica
+(beta = 5/2, 26 operators) — the exact number `swap_on_chunks` should compare with its uniform draw is
+at least 1: the exchange must always be accepted. (In binary64 the temperature factor
+`(2^51 / (5/2))^26` is `+inf` and the product of coupling ratios `(2^-45)^26` underflows to 0;
+`inf * 0 = NaN` is never accepted: the real code exchanges this pair with probability 0 — harness mode
+`swap-overflow-witness`.) The container accepts the pair and the Hamiltonians are not `ham_eq`. -/
+theorem swap_overflow_witness :
+    1 ≤ pSwap isingIface OverflowWitness.cold OverflowWitness.hot true ∧
+    canSwapIsing OverflowWitness.cold.ham OverflowWitness.hot.ham = true ∧
+    hamEqIsing OverflowWitness.cold.ham OverflowWitness.hot.ham = false ∧
+    countOps OverflowWitness.hot.cfg.slots = 26 := by
+  decide +kernel
+
 /-! ## Non-vacuity: the hypotheses of `swapProb_exact` hold for a concrete non-trivial pair -/
 
 namespace Witness
